@@ -388,3 +388,29 @@ package gtab
 //@   loop 3
 //@     invariant forall k int :: 0 <= k && k < len(subtables) ==> (is(subtables[k], *extensionSubtable) ==> subtables[k].(*extensionSubtable) != nil)
 //@     invariant parser.inv(p) && p.r == old(p.r) && faults(p.r) <= old(faults(p.r)) && fresh(subtables) && len(subtables) == subTableCount && len(subtableOffsets) == subTableCount && meta != nil && fresh(meta) && sr != nil && fresh(res) && lookupTablePos >= 0 && lookupTablePos <= 2305843009213759487
+
+// GSUB subtable readers.  They satisfy the subtableReader contract assumed by
+// readLookupList and deliver subtables their apply methods accept.
+//@ func readGIDSlice(p *parser.Parser) (res []glyph.ID, err error)   props: C02 C18
+//@   requires parser.inv(p)
+//@   ensures err == nil ==> parser.inv(p) && fresh(res)
+//@   ensures p.r == old(p.r) && faults(p.r) >= old(faults(p.r)) && (faults(p.r) > old(faults(p.r)) ==> err != nil)
+//@   modifies p.*, allelems(byte), rpos(p.r), faults(p.r)
+//@   loop 0
+//@     invariant parser.inv(p) && p.r == old(p.r) && faults(p.r) == old(faults(p.r)) && fresh(res) && len(res) == n
+
+//@ func readGsub1_1(p *parser.Parser, subtablePos int64) (s Subtable, err error)   props: C02 C18 C07
+//@   requires parser.inv(p) && subtablePos >= 0 && subtablePos <= 4611686018427387904
+//@   ensures err == nil ==> parser.inv(p) && s != nil && is(s, *Gsub1_1) && s.(*Gsub1_1) != nil && s.(*Gsub1_1).Cov != nil
+//@   ensures p.r == old(p.r) && (faults(p.r) > old(faults(p.r)) ==> err != nil)
+//@   modifies p.*, allelems(byte), rpos(p.r), faults(p.r)
+
+// readGsub1_2: the substitute list and the coverage table are cut to the same
+// length, so that every coverage index has a substitute (what Gsub1_2.apply
+// requires).
+//@ func readGsub1_2(p *parser.Parser, subtablePos int64) (s Subtable, err error)   props: C02 C18 C07
+//@   requires parser.inv(p) && subtablePos >= 0 && subtablePos <= 4611686018427387904
+//@   ensures err == nil ==> parser.inv(p) && s != nil && is(s, *Gsub1_2) && s.(*Gsub1_2) != nil
+//@   ensures err == nil ==> forall g uint16 :: has(s.(*Gsub1_2).Cov, g) ==> 0 <= s.(*Gsub1_2).Cov[g] && s.(*Gsub1_2).Cov[g] < len(s.(*Gsub1_2).SubstituteGlyphIDs)
+//@   ensures p.r == old(p.r) && (faults(p.r) > old(faults(p.r)) ==> err != nil)
+//@   modifies p.*, allelems(byte), rpos(p.r), faults(p.r)
